@@ -286,7 +286,8 @@ func (l *Lexer) readLineComment() string {
 	for l.pos < len(l.input) && l.peekChar() != '\n' {
 		l.pos++
 	}
-	return strings.TrimSpace(string(l.input[pos:l.pos]))
+	// Only what the lexer itself takes for whitespace: the text of the token is the bytes it spans otherwise.
+	return strings.TrimRight(string(l.input[pos:l.pos]), " \t\r")
 }
 
 func (l *Lexer) endBlockComment(ch byte) bool {
